@@ -68,8 +68,26 @@ class Run:
         self.crosschecked = 0
 
     # ------------------------------------------------------------------ solver
-    def check_sat(self, constraints, timeout_ms=60000, logic=None, tactic=None):
-        """raw satisfiability of a list of constraints; returns (status, model|None)"""
+    def check_sat(self, constraints, timeout_ms=60000, logic=None, tactic=None, nl=False):
+        """raw satisfiability of a list of constraints; returns (status, model|None).
+        nl=True: portfolio for non-linear real arithmetic -- the nlsat tactic first (only its `unsat` is accepted:
+        it treats uninterpreted applications as opaque variables, which over-approximates the models), then the
+        default solver for everything else."""
+        if nl and not tactic and not logic:
+            s = z3.Tactic("qfnra-nlsat").solver()
+            s.set("timeout", int(min(timeout_ms, 15000)))
+            for c in constraints:
+                s.add(c)
+            t = time.time()
+            try:
+                r = str(s.check())
+            except z3.Z3Exception:
+                r = "unknown"
+            self.solver_s += time.time() - t
+            if r == "unsat":
+                self.q[r] = self.q.get(r, 0) + 1
+                self.extra["unsat_by_nlsat_tactic"] = self.extra.get("unsat_by_nlsat_tactic", 0) + 1
+                return r, None
         s = z3.SolverFor(logic) if logic else (z3.Tactic(tactic).solver() if tactic else z3.Solver())
         s.set("timeout", int(timeout_ms))
         for c in constraints:
@@ -80,7 +98,7 @@ class Run:
         self.q[r] = self.q.get(r, 0) + 1
         return r, (s.model() if r == "sat" else None)
 
-    def prove(self, key, claim, assume=(), timeout_ms=60000, sample=None, nontrivial=True, logic=None):
+    def prove(self, key, claim, assume=(), timeout_ms=60000, sample=None, nontrivial=True, logic=None, nl=False):
         """
         decide  assume => claim  for all values: query  assume AND NOT claim.
         returns ("unsat", None) when the claim holds, ("sat", model) with a counterexample,
@@ -89,7 +107,7 @@ class Run:
         """
         if isinstance(claim, bool):
             claim = z3.BoolVal(claim)
-        r, m = self.check_sat(list(assume) + [z3.Not(claim)], timeout_ms=timeout_ms, logic=logic)
+        r, m = self.check_sat(list(assume) + [z3.Not(claim)], timeout_ms=timeout_ms, logic=logic, nl=nl)
         if sample is not None and len(self.samples) < 12 and r == "unsat":
             self.samples.append({"obligation": key, "verdict": "unsat (holds for all values)", "query": sample})
         return r, m
